@@ -79,12 +79,16 @@ def _surf_frame(ctx, srf, pu, pv, U, V, Pw, su, sv, rational):
     ctx.check_eq_grid('frame.ctrlpts', srf.ctrlptsw if rational else srf.ctrlpts, Pw)
 
 
-def _curve_setup(ctx, p, mult, rational):
-    U, inner, n = shapes.make_kv(ctx, p, mult)
+def _curve_setup(ctx, p, mult, rational, norm=True):
+    U, inner, n = shapes.make_kv(ctx, p, mult, normalized=norm)
     shapes.separated_knots(ctx, U, MULT_TOL)
+    if not norm:
+        # the pieces come back normalised to [0, 1]: with a domain no longer than 1 that only stretches the knot gaps, so the
+        # tol_separated precondition (A1) carries over to every piece
+        ctx.assume(ctx.le(U[-1] - U[0], 1))
     P = shapes.net(ctx, 'P', n, 2)
     W = shapes.weights(ctx, 'w', n) if rational else None
-    crv = shapes.build_curve(ctx, p, U, P, W)
+    crv = shapes.build_curve(ctx, p, U, P, W, normalize_kv=norm)
     Pw = shapes.homog(P, W)
 
     def C(t):
@@ -129,6 +133,9 @@ def _curve_shapes(tier):
             out.append(dict(p=p, mult=[1, 1, 1], rational=False))
     for p, mult in ((1, [1]), (2, [1])) + (((2, [2]), (2, [1, 1])) if tier == 'thorough' else ()):
         out.append(dict(p=p, mult=mult, rational=True))
+    # clamped knot vectors kept as given (normalize_kv=False, symbolic range [a, b])
+    out.append(dict(p=2, mult=[1], rational=False, norm=False))
+    out.append(dict(p=1, mult=[1, 1], rational=True, norm=False))
     return out
 
 
@@ -136,10 +143,10 @@ def _curve_shapes(tier):
                       'helpers.find_span_linear', 'helpers.knot_insertion', 'helpers.knot_insertion_kv',
                       'knotvector.normalize', 'BSpline.Curve.evaluate_single'],
           quick=lambda: _curve_shapes('quick'), thorough=lambda: _curve_shapes('thorough'))
-def split_curve(ctx, p, mult, rational):
+def split_curve(ctx, p, mult, rational, norm=True):
     """x symbolic in the open domain (inside any span / on any knot): two pieces, each == original under the affine
     map of [0,1] onto [0,x] resp. [x,1]; input unchanged; x at a domain end raises"""
-    U, inner, n, Pw, crv, C = _curve_setup(ctx, p, mult, rational)
+    U, inner, n, Pw, crv, C = _curve_setup(ctx, p, mult, rational, norm)
     lo, hi = U[p], U[n]
     x = shapes.param_in(ctx, 'x', lo, hi, open_lo=True, open_hi=True)
     _sep_from_knots(ctx, x, [lo] + inner + [hi])
@@ -163,9 +170,9 @@ def split_curve(ctx, p, mult, rational):
 @scenario('C07', fns=['operations.decompose_curve', 'operations.split_curve', 'operations.insert_knot',
                       'helpers.find_multiplicity', 'helpers.knot_insertion', 'knotvector.normalize'],
           quick=lambda: _curve_shapes('quick'), thorough=lambda: _curve_shapes('thorough'))
-def decompose_curve(ctx, p, mult, rational):
+def decompose_curve(ctx, p, mult, rational, norm=True):
     """one Bezier piece per non-empty knot interval, in order, each == original on its interval; input unchanged"""
-    U, inner, n, Pw, crv, C = _curve_setup(ctx, p, mult, rational)
+    U, inner, n, Pw, crv, C = _curve_setup(ctx, p, mult, rational, norm)
     lo, hi = U[p], U[n]
     u = shapes.param_in(ctx, 'u', lo, hi)
     pieces = ctx.geomdl('operations').decompose_curve(crv)
